@@ -1,6 +1,6 @@
 """Per-property registry: Lean module + theorems (proof obligations), translator items,
 the suite that runs correspondence and the oracle search."""
-from props import c01, c03, c05, c06, c07, c08, c09, c10, c11, c12, c13, c19, c20
+from props import c01, c02, c03, c04, c05, c06, c07, c08, c09, c10, c11, c12, c13, c19, c20
 
 TRUSTED_BASE = [
     "Lean 4.33 kernel; axioms limited to propext, Classical.choice, Quot.sound (audited by #print axioms on every run)",
@@ -53,7 +53,9 @@ def _reg(pid, run, theorems=(), translator=("T1",), rule="", level_text="", leve
 
 
 _reg("C01", c01.run)
+_reg("C02", c02.run)
 _reg("C03", c03.run)
+_reg("C04", c04.run)
 _reg("C05", c05.run,
      theorems=["NirVerif.C05.affine_linear", "NirVerif.C05.elementwise1", "NirVerif.C05.neuron",
                "NirVerif.C05.io_ndarray", "NirVerif.C05.io_sequence"],
